@@ -233,11 +233,17 @@ def native_replay(h, test_code, log_path, release=False):
         f.write('\n' + test_code + '\n')
     cmd = ['cargo', 'kani', 'playback', '-Z', 'concrete-playback', '--lib'] + repo_override() + ['--', tname]
     env = kani_env(); env['CARGO_TARGET_DIR'] = os.path.join(WORK, 'replay', 'target')
+    import fcntl
+    os.makedirs(os.path.join(WORK, 'replay'), exist_ok=True)
+    lock = open(os.path.join(WORK, 'replay', '.lock'), 'w')
+    fcntl.flock(lock, fcntl.LOCK_EX)        # the native replay target dir is shared: concurrent checks must not build in it at the same time
     try:
         p = subprocess.run(cmd, cwd=scratch, env=env, capture_output=True, text=True, timeout=1800)
         out = p.stdout + p.stderr
     except subprocess.TimeoutExpired:
         out = 'TIMEOUT'; p = None
+    finally:
+        fcntl.flock(lock, fcntl.LOCK_UN); lock.close()
     open(log_path, 'w').write(out)
     shutil.rmtree(scratch, ignore_errors=True)
     if p is None: return 'error'
